@@ -41,6 +41,122 @@ class Token:
         raise Unsupported("ordering of external tokens")
 
 
+RefS = z3.DeclareSort("Ref")
+
+
+def ref_term(x):
+    """the z3 term (sort Ref) standing for the identity of an object the contract does not look into"""
+    if isinstance(x, RefVal):
+        return x.term
+    if isinstance(x, Opaque):
+        return x.const
+    if x is None:
+        return z3.Const("None!ref", RefS)
+    raise Unsupported(f"object of type {type(x).__name__} used as a symbolic reference")
+
+
+class RefVal:
+    """a symbolic object reference (e.g. the value found in a map of arbitrary content)"""
+
+    def __init__(self, term):
+        self.term = term
+
+    def __repr__(self):
+        return f"<ref {self.term}>"
+
+    def __vf_compare__(self, I, op, a, b):
+        import ast
+        try:
+            same = ref_term(a) == ref_term(b)
+        except Unsupported:
+            same = False
+        if isinstance(op, (ast.Eq, ast.Is)):
+            return same
+        if isinstance(op, (ast.NotEq, ast.IsNot)):
+            return z3.Not(same) if is_z3(same) else not same
+        raise Unsupported("ordering of references")
+
+
+class SymMap:
+    """a dict of ARBITRARY content keyed by object identity: (domain : Ref -> Bool, value : Ref -> Ref).  Used to state
+    representation invariants over every reachable state of a registry instead of sampling histories."""
+
+    def __init__(self, name):
+        self.dom = z3.Array(name + "_dom", RefS, z3.BoolSort())
+        self.val = z3.Array(name + "_val", RefS, RefS)
+
+    def __vf_contains__(self, I, k):
+        return z3.Select(self.dom, ref_term(k))
+
+    def __vf_getitem__(self, I, k):
+        kt = ref_term(k)
+        if not I.decide(z3.Select(self.dom, kt)):
+            I.raise_("KeyError", "dict lookup")
+        return RefVal(z3.Select(self.val, kt))
+
+    def __vf_setitem__(self, I, k, v):
+        kt = ref_term(k)
+        self.dom = z3.Store(self.dom, kt, True)
+        self.val = z3.Store(self.val, kt, ref_term(v))
+
+
+class CtxToken:
+    def __init__(self, var, old):
+        self.var, self.old, self.used = var, old, False
+
+    def __vf_getattr__(self, I, name):
+        if name == "old_value":
+            return self.old
+        if name == "var":
+            return self.var
+        raise Unsupported(f"Token.{name}")
+
+
+class CtxVar:
+    """contextvars.ContextVar (documented contract): get() -> current value or the default; set(v) -> a token remembering the
+    previous value; reset(token) -> restores that value, RuntimeError if the token was already used, ValueError if it was
+    created by another variable"""
+    MISSING = object()
+
+    def __init__(self, name, default=MISSING):
+        self.name, self.default, self.value = name, default, CtxVar.MISSING
+        self.log = []
+
+    def current(self):
+        return self.default if self.value is CtxVar.MISSING else self.value
+
+    def __vf_getattr__(self, I, name):
+        if name == "get":
+            def get(*d):
+                v = self.current()
+                if v is CtxVar.MISSING:
+                    if d:
+                        return d[0]
+                    I.raise_("LookupError", "ContextVar.get")
+                return v
+            return BoundBuiltin(get)
+        if name == "set":
+            def set_(v):
+                tok = CtxToken(self, self.value)
+                self.value = v
+                self.log.append(("set", v))
+                return tok
+            return BoundBuiltin(set_)
+        if name == "reset":
+            def reset(tok):
+                if not isinstance(tok, CtxToken):
+                    I.raise_("TypeError", "ContextVar.reset")
+                if tok.var is not self:
+                    I.raise_("ValueError", "ContextVar.reset: token created by a different ContextVar")
+                if tok.used:
+                    I.raise_("RuntimeError", "ContextVar.reset: token has already been used")
+                tok.used = True
+                self.value = tok.old
+                self.log.append(("reset", tok.old))
+            return BoundBuiltin(reset)
+        raise Unsupported(f"ContextVar.{name}")
+
+
 class SymToken:
     """an external constant of symbolic identity (e.g. an arbitrary torch dtype): two tokens of one family are equal iff
     their integer ids are"""
@@ -214,6 +330,7 @@ def install(I):
         "math.log": np_log,
         "functools.partial": partial,
         "typing.cast": cast,
+        "typing.TypeVar": lambda I, a, k: Opaque("TypeVar"),
         "copy.copy": copy_,
         "<attr>.register_buffer": register_buffer,
         "torch.tensor": torch_tensor,
@@ -225,6 +342,7 @@ def install(I):
         "itertools.combinations": it_combinations,
         "collections.defaultdict": defaultdict,
         "collections.deque": deque,
+        "contextvars.ContextVar": lambda I, a, k: CtxVar(a[0], k.get("default", CtxVar.MISSING)),
         "torch.get_default_dtype": lambda I, a, k: Token("torch.default_dtype"),
     })
     from . import tensor
